@@ -5,6 +5,10 @@ use crate::util::*;
 pub fn generate(r: &mut Rng, tier: &str, emit: &mut dyn FnMut(String)) {
     let n = if tier == "thorough" { 2000 } else { 200 };
     for i in 0..n {
+        if i % 5 == 4 {
+            emit(gen_restart(r));
+            continue;
+        }
         if i % 3 == 0 {
             // silent network: the scheduler model predicts these exactly
             let s = crate::c19::gen_silent(r).replacen("sim C19", "sim C13", 1);
@@ -22,4 +26,54 @@ pub fn generate(r: &mut Rng, tier: &str, emit: &mut dyn FnMut(String)) {
             emit(gen_world(r, &k));
         }
     }
+}
+
+/// A search that is stopped (or not) and started again for the same name - in the same or
+/// another letter case - before the first search's next retransmission is due, once or
+/// several times, on a silent network: the stopped channel must stay silent and only one
+/// query schedule may run.
+pub fn gen_restart(r: &mut Rng) -> String {
+    use crate::c19::{gen_ifaces, HOSTS, TYPES};
+    let mut cmds: Vec<String> = vec![format!("daemon {}", gen_ifaces(r))];
+    cmds.push("quiet 1".to_string());
+    cmds.push("ipint 0 100000".to_string());
+    let mut now = 1_000_000u64;
+    let host = r.chance(2, 3);
+    let name = if host { *r.pick(HOSTS) } else { *r.pick(TYPES) };
+    let variant = |r: &mut Rng| -> String {
+        if !host {
+            return name.to_string();
+        }
+        match r.below(3) {
+            0 => name.to_string(),
+            1 => name.to_lowercase(),
+            _ => name.to_uppercase().replace(".LOCAL.", ".local."),
+        }
+    };
+    let mut chan = 0;
+    let rounds = r.range(2, 4);
+    for k in 0..rounds {
+        chan += 1;
+        let v = variant(r);
+        if host {
+            let to = if r.chance(2, 3) { "none".to_string() } else { format!("some {}", r.pick(&[1500u64, 3000, 60_000])) };
+            cmds.push(format!("resolve 0 {} {} {}", chan, hx(&v), to));
+        } else {
+            cmds.push(format!("browse 0 {} {}", chan, hx(&v)));
+        }
+        // the search runs for a while: shorter than its next retransmission, or a few of them
+        now += *r.pick(&[0u64, 1, 300, 999, 1000, 1001, 2500, 3500, 7200]);
+        cmds.push(format!("run {}", now));
+        if k + 1 < rounds || r.chance(1, 2) {
+            if r.chance(3, 4) {
+                let v = variant(r);
+                cmds.push(if host { format!("stopresolve 0 {}", hx(&v)) } else { format!("stopbrowse 0 {}", hx(&v)) });
+                now += *r.pick(&[0u64, 1, 200, 600]);
+                cmds.push(format!("run {}", now));
+            }
+        }
+    }
+    now += *r.pick(&[5_000u64, 20_000, 70_000]);
+    cmds.push(format!("run {}", now));
+    format!("sim C13 {}", cmds.join(" ; "))
 }
